@@ -15,6 +15,7 @@ import (
 	"path/filepath"
 	"strings"
 	"sync"
+	"syscall"
 	"time"
 
 	"github.com/docker/libtrust"
@@ -112,7 +113,7 @@ func genA(t *rapid.T) CaseA {
 	c.Platform = rapid.IntRange(0, 3).Draw(t, "platform") == 3
 	c.Again = rapid.SampledFrom([]string{"", "", "get", "head", "edit-get", "edit-get", "edit-head", "put-edit-get"}).Draw(t, "again")
 	// normalise what an entry cannot express
-	if c.Entry != "reg-get" && c.Entry != "layout-get" {
+	if c.Entry != "reg-get" && c.Entry != "layout-get" && c.Entry != "layout-head" {
 		c.Platform = false
 	}
 	if c.Platform {
@@ -121,6 +122,13 @@ func genA(t *rapid.T) CaseA {
 		if c.DescDig == "absent" {
 			c.DescDig = "ok256"
 		}
+	}
+	if c.Platform && (c.Family == "oci-index" || c.Family == "docker2-list") && rapid.IntRange(0, 2).Draw(t, "plat_hostile") == 2 {
+		// a list below the wrapper whose own linux/amd64 entry cannot be followed
+		dig := rapid.SampledFrom([]string{"", "", "sha256:zz", "latest", hashOf("sha256", []byte("absent"))}).Draw(t, "plat_hostile_dig")
+		c.Raw = fmt.Sprintf(`{"schemaVersion":2,"mediaType":%q,"manifests":[{"mediaType":%q,"digest":%q,"size":0,"platform":{"architecture":"amd64","os":"linux"}}]}`,
+			famMT(c.Family), mtOCIManifest, dig)
+		c.Info = BodyInfo{BodyMT: "present", Valid: false, Style: "hostile-platform-entry"}
 	}
 	switch c.Entry {
 	case "reg-get", "reg-head":
@@ -271,6 +279,7 @@ type fetched struct {
 	cands  [][]byte // byte strings the manifest may legitimately consist of
 	expect string   // highest-priority expected digest that was supplied ("" none)
 	expSrc string   // desc | ref | header | index
+	spun   bool     // the guarded call never returned and kept burning CPU
 	skip   string   // non-empty: harness could not stage the case
 	// new-orig: a wrong size the caller supplied (descriptor, else Content-Length); 0 = none
 	suppliedSize int64
@@ -456,6 +465,8 @@ func (c *CaseA) run(served, nm []byte, tmp func() string) fetched {
 				opts = append(opts, regclient.WithManifestRequireDigest())
 			}
 			f.m, f.err = f.rc.ManifestHead(ctx, r, opts...)
+		} else if c.Platform {
+			c.guarded(&f, func() (manifest.Manifest, error) { return f.rc.ManifestGet(ctx, r, opts...) })
 		} else {
 			f.m, f.err = f.rc.ManifestGet(ctx, r, opts...)
 		}
@@ -477,7 +488,7 @@ func (c *CaseA) run(served, nm []byte, tmp func() string) fetched {
 		entries := []string{}
 		var mopts []regclient.ManifestOpts
 		switch {
-		case c.Entry == "layout-get" && c.Platform:
+		case (c.Entry == "layout-get" || c.Entry == "layout-head") && c.Platform:
 			wrapper := wrapperIndex(c.wrapperEntryMT(), descDig, descSize(c.DescSize, len(nm)))
 			wd := hashOf("sha256", wrapper)
 			e := map[string]any{"mediaType": mtOCIIndex, "digest": wd, "size": len(wrapper), "annotations": map[string]string{refName: c.tagName()}}
@@ -533,10 +544,16 @@ func (c *CaseA) run(served, nm []byte, tmp func() string) fetched {
 			return f
 		}
 		f.rc = regclient.New()
-		if c.Entry == "layout-head" {
-			f.m, f.err = f.rc.ManifestHead(ctx, r, mopts...)
+		call := func() (manifest.Manifest, error) {
+			if c.Entry == "layout-head" {
+				return f.rc.ManifestHead(ctx, r, mopts...)
+			}
+			return f.rc.ManifestGet(ctx, r, mopts...)
+		}
+		if c.Platform {
+			c.guarded(&f, call)
 		} else {
-			f.m, f.err = f.rc.ManifestGet(ctx, r, mopts...)
+			f.m, f.err = call()
 		}
 	}
 	return f
@@ -577,6 +594,60 @@ func wrapperIndex(mt, dig string, size int64) []byte {
 	e := map[string]any{"mediaType": mt, "digest": dig, "size": size, "platform": map[string]string{"architecture": "amd64", "os": "linux"}}
 	b, _ := json.Marshal(map[string]any{"schemaVersion": 2, "mediaType": mtOCIIndex, "manifests": []any{e}})
 	return b
+}
+
+// inconclusive is set by a check that could not decide (see guarded); the test
+// functions fail on it without reporting a violation.
+var inconclusive string
+
+// spinCPU is the CPU time after which a call that has not returned is judged to
+// loop. The process runs one case at a time, so CPU burnt while the check only
+// sleeps is the call's; a starved machine delays the verdict, it cannot fake it.
+const (
+	spinCPU  = 3 * time.Second
+	spinWall = 10 * time.Minute
+)
+
+func cpuTime() time.Duration {
+	var ru syscall.Rusage
+	if syscall.Getrusage(syscall.RUSAGE_SELF, &ru) != nil {
+		return 0
+	}
+	return time.Duration(ru.Utime.Nano() + ru.Stime.Nano())
+}
+
+// guarded runs a call that must terminate under a watchdog: it is judged by the
+// CPU time the process burns while the check does nothing but wait (state based),
+// a pure wall-clock expiry is inconclusive.
+func (c *CaseA) guarded(f *fetched, call func() (manifest.Manifest, error)) {
+	type res struct {
+		m   manifest.Manifest
+		err error
+	}
+	ch := make(chan res, 1)
+	cpu0, t0 := cpuTime(), time.Now()
+	go func() {
+		m, err := call()
+		ch <- res{m, err}
+	}()
+	tick := time.NewTicker(20 * time.Millisecond)
+	defer tick.Stop()
+	for {
+		select {
+		case r := <-ch:
+			f.m, f.err = r.m, r.err
+			return
+		case <-tick.C:
+			if cpuTime()-cpu0 > spinCPU {
+				f.spun = true
+				return
+			}
+			if time.Since(t0) > spinWall {
+				f.skip = "watchdog-wall"
+				return
+			}
+		}
+	}
 }
 
 // hasEmptyDigestEntry tells whether a body lists a manifest entry without a digest.
@@ -656,14 +727,20 @@ func checkA(c CaseA, ev *evid.Collector) []*evid.Violation {
 			os.RemoveAll(d)
 		}
 	}()
-	if c.Entry == "layout-get" && c.Platform && c.DefaultTag && hasEmptyDigestEntry(served) {
-		// excluded by construction: on a layout the platform resolution follows an index entry
-		// with an empty digest back to the tag "latest" and never returns (reported to the lead,
-		// /var/tmp/audit-patches/C02-platform-empty-digest-loop.diff); a hang decides nothing
-		c.DefaultTag = false
-		ev.Class("excluded:layout-platform-empty-digest-entry-under-latest")
+	if c.Platform && c.DefaultTag && hasEmptyDigestEntry(served) {
+		// the shape that made the platform resolution on a layout loop for ever before c6809d9
+		ev.Class("platform:empty-digest-entry-under-latest:" + c.Entry)
 	}
 	f := c.run(served, nm, tmp)
+	if f.spun {
+		ev.Case(true, "spin|"+c.Entry+"|"+c.Raw, "part:A", "entry:"+c.Entry, "outcome:"+c.Entry+":does-not-terminate")
+		return []*evid.Violation{evid.V("platform-resolution-does-not-terminate", "%s with WithManifestPlatform(linux/amd64) on %s did not return: the call burned %.1f s of CPU (a normal call needs microseconds); body reached through the wrapper index: %s", map[bool]string{true: "ManifestHead", false: "ManifestGet"}[c.Entry == "layout-head"], c.Entry, spinCPU.Seconds(), clip(served))}
+	}
+	if f.skip == "watchdog-wall" {
+		// no CPU evidence of a loop: inconclusive, never a violation (the test fails without a failure record)
+		inconclusive = "wall-clock watchdog fired on " + c.Entry + " without CPU evidence of a loop"
+		return nil
+	}
 
 	// ---- classification
 	hostileSrc := false
@@ -1148,11 +1225,19 @@ func (c *CaseA) repush(f fetched, m manifest.Manifest, s snap, tag string, tmp f
 			if !found {
 				add("repush-layout-body-differs", "after ManifestPut(%s) no blob file holds the manifest's bytes", r.CommonName())
 			}
-			// observation only: can the manifest be read back under the name it was pushed to?
-			if m3, err := rc.ManifestGet(ctx, r); err == nil && m3.IsSet() {
-				ev.Class("repush:layout-" + lbl + ":ok-readable")
-			} else {
-				ev.Class("repush:layout-" + lbl + ":ok-not-readable-under-pushed-digest")
+			if lbl == "otheralg" {
+				// the round trip: what was accepted for a reference is what that reference gives back
+				m3, err := rc.ManifestGet(ctx, r)
+				switch {
+				case err != nil || m3 == nil || !m3.IsSet():
+					add("repush-layout-not-retrievable-under-pushed-digest", "ManifestPut(%s) of a %s manifest returned nil, but ManifestGet of the same reference fails: %v", r.CommonName(), s.Digest, err)
+				default:
+					if b3, _ := m3.RawBody(); !bytes.Equal(b3, s.Raw) {
+						add("repush-layout-roundtrip-bytes-differ", "ManifestGet(%s) after ManifestPut returns %s, pushed %s", r.CommonName(), clip(b3), clip(s.Raw))
+					} else {
+						ev.Class("repush:layout-otheralg:ok-readable")
+					}
+				}
 			}
 			return vs
 		}
